@@ -24,7 +24,7 @@ type C19Case struct {
 
 // genStream draws the merge calls of a history: a base stream, further
 // layers derived from it, optionally a layered file chain.
-func genStream(r *gen.Rand, cfg gen.ProgCfg, files map[string]string, maxMerges int) ([]wire.Op, []string) {
+func genStream(r *gen.Rand, cfg gen.ProgCfg, files map[string]string, maxMerges int, allowShare bool) ([]wire.Op, []string) {
 	var planted []string
 	child := gen.ChildCfg{Tree: cfg.Tree, Edits: r.Range(1, 3), PUseless: 0.03}
 	var merges []wire.Op
@@ -75,7 +75,7 @@ func genStream(r *gen.Rand, cfg gen.ProgCfg, files map[string]string, maxMerges 
 		}
 		id := fmt.Sprintf("L0|doc%d", i)
 		op := wire.Op{Op: "MergeDocument", ID: id, Data: &wire.Tree{V: doc}}
-		if m, ok := doc.(map[string]any); ok && r.Chance(0.12) {
+		if m, ok := doc.(map[string]any); ok && allowShare && r.Chance(0.12) {
 			// a caller that builds the document in Go and uses one sub-tree
 			// object in two places
 			var cands []string
@@ -218,7 +218,7 @@ func genC19(r *gen.Rand, maxCalls int) *C19Case {
 	}
 	cfg.PBad = gen.PickAny(r, []float64{0, 0, 0.05})
 	cfg.PSelf = gen.PickAny(r, []float64{0, 0, 0, 0.1})
-	merges, planted := genStream(r, cfg, c.Files, maxCalls-2)
+	merges, planted := genStream(r, cfg, c.Files, maxCalls-2, true)
 	c.Planted = planted
 	// observation calls interleaved
 	nObs := r.Range(2, maxCalls-len(merges))
